@@ -1,22 +1,22 @@
-SPECIFICATION TableSpec
+SPECIFICATION RSpec
 CONSTANTS
-  L = 4
+  L = 2
   FixPred = TRUE
   FixLeave = TRUE
-  FixWrap = FALSE
+  FixWrap = TRUE
   FixDead = FALSE
   MaxTry = 2
   TrackCov = FALSE
   Goal = "none"
-  MCLayout <- LayR4
-  InitMembers = {}
+  MCLayout <- LayR5
+  InitMembers = {1, 2, 3, 4, 5}
   Joiners = {}
-  Leavers = {}
+  Leavers = {2, 3, 4}
   MaxOps = 0
   Faults = FALSE
   OpKinds = {}
-  MaxMembers = 8
-  B = 3
+  MaxMembers = 0
+  B = 4
   FixSelf = TRUE
-INVARIANTS InvLookupCorrect InvTerminates InvHopBound
+INVARIANTS InvNoDeadEnd
 CHECK_DEADLOCK FALSE
